@@ -354,6 +354,16 @@ ITER_KINDS = [
 ]
 
 
+def has_nan(v, depth=0) -> bool:
+    """does the value contain something that is not equal to itself (float / Decimal / complex NaN), at any tuple depth?"""
+    if isinstance(v, (tuple, frozenset)) and depth < 6:
+        return any(has_nan(x, depth + 1) for x in v)
+    try:
+        return bool(v != v)
+    except Exception:  # noqa: BLE001  (Decimal sNaN refuses comparison)
+        return True
+
+
 def class_key(cls) -> str:
     """name of a ClassDispatcher key / a value class, as the model sees it"""
     if dataclasses.is_dataclass(cls):
@@ -415,8 +425,12 @@ class TypeGen:
         need_hashable = factory in ("set", "frozenset")
         el = self.gen(depth - 1, hashable=need_hashable)
 
-        def g(r, el=el, pyf=pyf):
+        def g(r, el=el, pyf=pyf, need_hashable=need_hashable):
             xs = [el.gen(r) for _ in range(r.choice([0, 1, 2, 3]))]
+            if need_hashable:
+                # NaN (float, Decimal, complex; also inside tuples) is not equal to itself: whether two of them are "the same
+                # element" of a set depends on object identity, which no dump / load / JSON trip preserves
+                xs = [x for x in xs if not has_nan(x)]
             return pyf(xs)
         return Spec(hint=mk(el.hint), ty=["iter", factory, dump_list, el.ty], gen=g, kind="iter:" + factory, children=[el],
                     hashable=hashable_result and el.hashable, json_safe=el.json_safe, overlapping=el.overlapping)
@@ -442,7 +456,7 @@ class TypeGen:
             out = {}
             for _ in range(r.choice([0, 1, 2, 3])):
                 key = k.gen(r)
-                if key != key:   # NaN keys are never equal to themselves: not a usable mapping key
+                if has_nan(key):   # NaN keys are never equal to themselves: not a usable mapping key
                     continue
                 out[key] = v.gen(r)
             return out
@@ -1254,6 +1268,17 @@ def scalars_in(ty, acc=None):
     return acc
 
 
+def has_numeric_literal(ty) -> bool:
+    k = ty[0]
+    if k == "literal":
+        return any(v[0] in ("i", "b", "f") for v in ty[1])
+    if k == "iter":
+        return has_numeric_literal(ty[3])
+    if k in ("union", "tuple"):
+        return any(has_numeric_literal(t) for t in ty[1])
+    return False
+
+
 def numeric_mix(ty) -> bool:
     """a set element / dict key type that can LOAD both a numeric stdlib instance (Decimal, Fraction, complex) and another
     number: Python merges Decimal(1) / complex(1) with 1, the model's `==` does not relate an atom to a number"""
@@ -1261,12 +1286,16 @@ def numeric_mix(ty) -> bool:
     if k == "iter":
         if ty[1] in ("set", "frozenset"):
             sc = scalars_in(ty[3]) & NUMERIC_SCALARS
-            if sc & {"decimal", "fraction", "complex"} and len(sc) > 1:
-                return True
+            if sc & {"decimal", "fraction", "complex"}:
+                return True     # also alone: Decimal('-0') == Decimal('0'), Decimal('1.0') == Decimal('1'): equal, other text
+            if has_numeric_literal(ty[3]):
+                return True    # a lax Literal[1, ...] accepts Decimal('1') / 1.0 / (1+0j) by ==, which a set then merges with 1
         return numeric_mix(ty[3])
     if k == "dict":
         sc = scalars_in(ty[1]) & NUMERIC_SCALARS
-        if sc & {"decimal", "fraction", "complex"} and len(sc) > 1:
+        if sc & {"decimal", "fraction", "complex"}:
+            return True
+        if has_numeric_literal(ty[1]):
             return True
         return numeric_mix(ty[1]) or numeric_mix(ty[2])
     if k in ("union", "tuple"):
